@@ -93,7 +93,10 @@ func findModuleAndIsExternal(y Definition, prefix string) (*Module, bool, error)
 	sub, found := m.imports[prefix]
 	if !found {
 		if m.belongsTo != nil && m.belongsTo.prefix == prefix {
-			return m.parent.(*Module), true, nil
+			// a submodule loaded on its own has no parent module
+			if parent, hasParent := m.parent.(*Module); hasParent {
+				return parent, true, nil
+			}
 		}
 		return nil, true, errors.New("module not found " + prefix)
 	}
